@@ -342,3 +342,21 @@ func InstallHook(b *Base, decode func(key, val []byte) Ev) {
 		return nil
 	}
 }
+
+// PubKeysHex returns the hex public keys of the first n deterministic accounts.
+func PubKeysHex(n int) ([]string, error) {
+	var err error
+	blsOnce.Do(func() { err = e2types.InitBLS() })
+	if err != nil {
+		return nil, err
+	}
+	out := make([]string, n)
+	for i := 0; i < n; i++ {
+		sk, err := e2types.BLSPrivateKeyFromBytes(SecretKey(i))
+		if err != nil {
+			return nil, err
+		}
+		out[i] = hex.EncodeToString(sk.PublicKey().Marshal())
+	}
+	return out, nil
+}
